@@ -5,7 +5,7 @@ from . import build
 from .facts import DB
 
 VERIF = build.VERIF
-EVID = os.path.join(VERIF, "evidence")
+EVID = os.environ.get("VERIF_EVIDENCE_DIR") or os.path.join(VERIF, "evidence")
 KNOWN = os.path.join(VERIF, "known_findings.json")
 
 
@@ -138,7 +138,52 @@ def run_property(prop, tier, modname=None):
             except Exception as e:
                 run.fail("rule-crash", "rule crashed (treated as anchor loss, fail closed): %s\n%s" % (e, traceback.format_exc()[-1500:]))
     run.tags_done = tags_needed
+    if tier == "thorough" and not os.environ.get("VERIF_NO_SELFTEST") and build.REPO == "/repo":
+        try:
+            run.selftest = mutation_selftest(prop)
+        except Exception as e:
+            run.selftest = {"error": str(e)}
     return finish(run, mod)
+
+
+def mutation_selftest(prop):
+    """thorough tier only, informational (never changes the exit code): apply every committed seeded change of this property
+    to a scratch copy of /repo and record whether this property's quick check reports it."""
+    import re, shutil, subprocess
+    seeded = os.path.join(VERIF, "seeded")
+    out = {"applied": 0, "caught": 0, "missed": [], "skipped": [], "seeds": {}}
+    if not os.path.isdir(seeded):
+        return out
+    scr = os.path.join(build.CACHE, "scratch", "st-" + prop)
+    for name in sorted(os.listdir(seeded)):
+        sd = os.path.join(seeded, name)
+        mp = os.path.join(sd, "meta.json")
+        if not os.path.exists(mp) or not os.path.exists(os.path.join(sd, "patch.diff")):
+            continue
+        try:
+            meta = json.load(open(mp))
+        except Exception:
+            continue
+        if meta.get("property") != prop:
+            continue
+        shutil.rmtree(scr, ignore_errors=True)
+        os.makedirs(os.path.dirname(scr), exist_ok=True)
+        subprocess.check_call(["rsync", "-a", "--exclude", "target", "--exclude", ".git", "/repo/", scr + "/"])
+        pr = subprocess.run(["patch", "-p1", "-s", "-i", os.path.join(sd, "patch.diff")], cwd=scr, stdout=subprocess.PIPE, stderr=subprocess.STDOUT, text=True)
+        if pr.returncode != 0:
+            out["skipped"].append(name)
+            continue
+        env = dict(os.environ, RACTOR_REPO=scr, VERIF_EVIDENCE_DIR=os.path.join(build.CACHE, "scratch-evidence"), VERIF_NO_SELFTEST="1")
+        r = subprocess.run([os.path.join(VERIF, "check"), prop, "--tier", "quick"], env=env, stdout=subprocess.PIPE, stderr=subprocess.STDOUT, text=True)
+        rules = sorted(set(re.findall(r"^   rule=(\S+)", r.stdout, re.M)))
+        out["applied"] += 1
+        if r.returncode == 1 and rules:
+            out["caught"] += 1
+        else:
+            out["missed"].append(name)
+        out["seeds"][name] = rules
+    shutil.rmtree(scr, ignore_errors=True)
+    return out
 
 
 def finish(run, mod):
@@ -215,6 +260,7 @@ def write_evidence(run, mod, extra_violations=0, nviol=0, note=None):
             "checker_cmd": "./check %s --tier %s" % (run.prop, run.tier),
             "trusted_base": getattr(mod, "TRUSTED", []),
             "notes": run.notes[:40],
+            "mutation_selftest": getattr(run, "selftest", None),
         },
         "assumptions": getattr(mod, "ASSUMPTIONS", []),
         "wall_s": round(time.time() - run.t0, 2),
